@@ -489,12 +489,76 @@ class _Replace(ast.NodeTransformer):
         return self.generic_visit(node)
 
 
+def _boolean_shaped(e: ast.expr) -> bool:
+    """The expression evaluates to True or False (not merely to something truthy or falsy)."""
+    if isinstance(e, ast.Constant):
+        return isinstance(e.value, bool)
+    if isinstance(e, ast.Compare):
+        return True
+    if isinstance(e, ast.UnaryOp) and isinstance(e.op, ast.Not):
+        return True
+    if isinstance(e, ast.BoolOp):
+        return all(_boolean_shaped(v) for v in e.values)
+    if isinstance(e, ast.Call) and isinstance(e.func, ast.Name) and e.func.id in ("bool", "isinstance", "issubclass", "callable") :
+        return True
+    return False
+
+
 def _single_return_expr(h: ast.AST) -> ast.expr | None:
     body = _strip_doc(h.body)  # type: ignore[attr-defined]
-    if len(body) == 1 and isinstance(body[0], ast.Return) and body[0].value is not None and not isinstance(h, ast.AsyncFunctionDef):
+    if isinstance(h, ast.AsyncFunctionDef) or not body:
+        return None
+    if len(body) == 1 and isinstance(body[0], ast.Return) and body[0].value is not None:
         if not any(isinstance(x, (ast.Await, ast.NamedExpr, ast.Yield, ast.YieldFrom)) for x in ast.walk(body[0].value)):
             return body[0].value
-    return None
+        return None
+    # predicate form: aliases of plain reads, then guard clauses `if c: return X`, then `return Y`
+    #   -> X if c else Y   (written with and/or when X is a boolean constant, so that it can stand in a test)
+    alias: dict[str, ast.expr] = {}
+    i = 0
+    while i < len(body) and isinstance(body[i], ast.Assign) and len(body[i].targets) == 1 and isinstance(body[i].targets[0], ast.Name) and _plain_read(body[i].value):
+        alias[body[i].targets[0].id] = body[i].value
+        i += 1
+    rest = body[i:]
+    if not rest or not isinstance(rest[-1], ast.Return) or rest[-1].value is None:
+        return None
+    guards = rest[:-1]
+    if not guards or not all(isinstance(g, ast.If) and not g.orelse and len(g.body) == 1 and isinstance(g.body[0], ast.Return) and g.body[0].value is not None for g in guards):
+        return None
+    if any(isinstance(x, (ast.Await, ast.NamedExpr, ast.Yield, ast.YieldFrom, ast.Lambda)) for st in rest for x in ast.walk(st)):
+        return None
+    # only predicates: every returned value is a truth value (a helper that selects among other values - an enum
+    # member, an error to raise - is expanded statement by statement like any other helper)
+    if not all(_boolean_shaped(g.body[0].value) for g in guards) or not _boolean_shaped(rest[-1].value):
+        return None
+    # an alias must not be re-bound and the aliased attribute must not be written in between (there are no statements
+    # but tests and returns in between, and tests with calls could write: require call-free tests when aliases exist)
+    if alias and any(isinstance(x, ast.Call) for g in guards for x in ast.walk(g.test)):
+        return None
+    e: ast.expr = copy.deepcopy(rest[-1].value)
+    for g in reversed(guards):
+        c = copy.deepcopy(g.test)
+        a = copy.deepcopy(g.body[0].value)
+        if isinstance(a, ast.Constant) and a.value is False:
+            e = ast.BoolOp(op=ast.And(), values=[ast.UnaryOp(op=ast.Not(), operand=c), e])
+        elif isinstance(a, ast.Constant) and a.value is True:
+            e = ast.BoolOp(op=ast.Or(), values=[c, e])
+        elif _boolean_shaped(a) and isinstance(e, ast.Constant) and e.value is False:
+            e = ast.BoolOp(op=ast.And(), values=[c, a])
+        elif _boolean_shaped(a) and _boolean_shaped(e):
+            # both arms are truth values: (c and a) or (not c and e)
+            e = ast.BoolOp(op=ast.Or(), values=[ast.BoolOp(op=ast.And(), values=[c, a]), ast.BoolOp(op=ast.And(), values=[ast.UnaryOp(op=ast.Not(), operand=copy.deepcopy(c)), e])])
+        else:
+            e = ast.IfExp(test=c, body=a, orelse=e)
+
+    class A(ast.NodeTransformer):
+        def visit_Name(self, n: ast.Name):  # noqa: N802
+            if n.id in alias and isinstance(n.ctx, ast.Load):
+                return copy.deepcopy(alias[n.id])
+            return n
+
+    e = A().visit(e)
+    return ast.fix_missing_locations(ast.copy_location(e, rest[-1]))
 
 
 def inline_expressions(fn: ast.AST, helpers: dict[str, tuple[ast.AST, bool]], log: list[str]) -> bool:
@@ -645,8 +709,14 @@ def new_helpers(trees: dict[str, ast.Module], base: dict[str, Any]) -> dict[str,
         bm = base.get(mod)
         if bm is None:
             continue
+        # a method of the baseline that reappears as a module-level function of the same name (or the reverse) has been
+        # moved, not newly extracted: the rules look it up in both places
+        moved_m = {m for bc_ in bm["classes"].values() for m in bc_["methods"]}
+        present_m = {s2.name for st in tree.body if isinstance(st, ast.ClassDef) for s2 in st.body if isinstance(s2, FuncDef)}
         for st in tree.body:
             if isinstance(st, FuncDef) and not st.name.startswith("__") and st.name not in bm["functions"] and _inlinable(st):
+                if st.name in moved_m and st.name not in present_m:
+                    continue
                 out.setdefault(mod, {})[st.name] = (st, False, None)
             elif isinstance(st, ast.ClassDef):
                 bc = bm["classes"].get(st.name)
